@@ -85,9 +85,16 @@ def get_fs(waterfall):
     elif not isinstance(waterfall, Waterfall):
         raise ValueError('Invalid data file!')
 
-    fch1 = waterfall.header['fch1']
     df = waterfall.header['foff']
-    fchans = waterfall.header['nchans']
+    # The channels actually selected (a Waterfall opened with f_start / f_stop, e.g. a piece from 
+    # split_waterfall_generator, keeps the whole file's fch1 and nchans in its header)
+    fchans = waterfall.container.selection_shape[2]
+    if fchans == waterfall.header['nchans']:
+        fch1 = waterfall.header['fch1']
+    elif df > 0:
+        fch1 = waterfall.container.f_start
+    else:
+        fch1 = waterfall.container.f_stop
 
     return fch1 + df * np.arange(fchans)
 
